@@ -131,6 +131,7 @@ func firstLine(s string) string {
 
 func checkC16(ctx *Ctx) {
 	defer runToOverTo(ctx)
+	defer runToCutFanIn(ctx)
 	ctx.Res.Rule = "random acyclic workflows (1-2 file sources, optional ParamSource, 1-5 processes with 0-2 file in-ports, optional parameter port fed by FromStr or the ParamSource, at most one process without out-ports); for each: Run; every single in-/param-port left unconnected in turn; RunTo over single targets and random target sets by name, by regex and by process; non-trivial = more than one process; distinct by (graph, targets, unplugged port). Checks: refusal before any command, commands executed = exactly the upstream closure with the expected task counts, every process started once; also: RunTo over connections made with OutPort.To() / OutParamPort.To()."
 	r := NewRng(ctx.Seed)
 	n := 8
@@ -224,6 +225,30 @@ func runToOverTo(ctx *Ctx) {
 	}
 	if okExtra {
 		ctx.Res.Violate(Violation{What: "RunTo(dst) executed the process downstream of its target", Class: "c16.outside-started", Witness: "runto-over-To"})
+	}
+}
+
+// RunTo a process whose out-port feeds, together with another process outside the run set, one in-port of a process
+// outside the run set (a cut fan-in): the target's out-port is re-wired to the sink and RunTo waits for its tasks
+func runToCutFanIn(ctx *Ctx) {
+	d := &Desc{Name: "c16fanin", Max: 2, Nodes: []Node{{Name: "sa", Kind: "filesource", Paths: []string{"fa.txt"}}, {Name: "sz", Kind: "filesource", Paths: []string{"fz.txt"}},
+		{Name: "a", Kind: "proc", Cmd: "( sleep 0.3 ; cat {i:in} > {o:out} )", Outs: map[string]string{"out": "{i:in}.a"}},
+		{Name: "z", Kind: "proc", Cmd: "( cat {i:in} > {o:out} )", Outs: map[string]string{"out": "{i:in}.z"}},
+		{Name: "c", Kind: "proc", Cmd: "( cat {i:in} > {o:out} )", Outs: map[string]string{"out": "{i:in}.c"}}},
+		Edges: []Edge{{From: "sa.out", To: "a.in"}, {From: "sz.out", To: "z.in"}, {From: "a.out", To: "c.in"}, {From: "z.out", To: "c.in"}},
+		RunTo: []string{"a"}, RunToKind: "name"}
+	rr := RunWorkflow(d, RunOpts{Pre: map[string]string{"fa.txt": "a\n", "fz.txt": "z\n"}, Timeout: 15e9})
+	defer os.RemoveAll(rr.Dir)
+	ctx.Res.Eval("RunTo below a cut fan-in", true, "cut-fan-in")
+	ctx.Res.Count("cut-fan-in")
+	_, okA := readFile(rr.Dir, "fa.txt.a")
+	if rr.Exit != 0 || !okA {
+		ctx.Res.Violate(Violation{What: fmt.Sprintf("RunTo(a), a.out and z.out both feeding c.in: exit %d, a's output present when RunTo returned: %v", rr.Exit, okA), Class: "c16.run-failed", Witness: "cut-fan-in"})
+	}
+	for _, p := range []string{"fz.txt.z", "fa.txt.a.c", "fz.txt.z.c"} {
+		if _, ok := readFile(rr.Dir, p); ok {
+			ctx.Res.Violate(Violation{What: "RunTo(a) executed a process outside the upstream closure: " + p + " exists", Class: "c16.outside-started", Witness: "cut-fan-in"})
+		}
 	}
 }
 
